@@ -239,7 +239,7 @@ from gpmc import interp as _ip
 
 
 from gpmc import manyobj as _mo
-SUBCHECKS = [Sub('psf_gridconv', gen, ev_row, chunk=16, floor=1000, envs=24), Sub('grid_direct', gen_grid, ev_grid, chunk=4, floor=300), Sub('threads', _tg, _te, chunk=1, floor=3, poison=False, fresh=True, timeout=3600), Sub('many_objects', *_mo.make('C10', 'convert'), chunk=1, floor=3, poison=False, fresh=True, timeout=3600), Sub('callforms', *_cf.make('C10', 'convert'), chunk=1, floor=1, guard=True), Sub('interpreter', *_ip.make('C10', 'convert'), chunk=1, floor=5, poison=False)]
+SUBCHECKS = [Sub('psf_gridconv', gen, ev_row, chunk=16, floor=1000, envs=24), Sub('grid_direct', gen_grid, ev_grid, chunk=4, floor=300), Sub('threads', _tg, _te, chunk=1, floor=3, poison=False, fresh=True, timeout=7200), Sub('many_objects', *_mo.make('C10', 'convert'), chunk=1, floor=3, poison=False, fresh=True, timeout=7200), Sub('callforms', *_cf.make('C10', 'convert'), chunk=1, floor=1, guard=True), Sub('interpreter', *_ip.make('C10', 'convert'), chunk=1, floor=5, poison=False)]
 
 
 def bounds(tier, seed):
